@@ -14,8 +14,8 @@ package ansi
 //@ assume func search.ArrayPositions.Equals(ap, other)
 //@   pure
 
-// a fragment of its stored value; a location is a (possibly empty) range Start <= End
-//@ spec fragOK(f *highlight.Fragment) bool = f != nil && 0 <= f.Start && f.Start <= f.End && f.End <= len(f.Orig)
+// (fragOK: a fragment of its stored value, defined with the html formatter's contract; spec
+// functions share one namespace)
 //@ func FragmentFormatter.Format
 //@   props C19
 //@   mode int
